@@ -255,6 +255,13 @@ def pipeline(pid, tier, rep):
     for v, fl in samples.items():
         files += pick(fl, nmod, huge=not quick)
     val = record_xdis(d, files, lib.MAIN_HOST, "portable", "val", nproc=14)
+    # what xdis says about a real file of a version whose interpreter is installed is judged under that interpreter's own opcode
+    # table, not under xdis's (which C09 compares with it): a wrong category in xdis's table then shows here as the wrong argval or
+    # target it causes, not only as a table difference
+    for r_ in val:
+        k = r_.get("tab", "")[1:]
+        if r_.get("tab", "").startswith("x") and k in cpy and not k.endswith("pypy"):
+            r_["xtab"], r_["tab"] = r_["tab"], "c" + k
 
     # ---- ORA inputs
     ora = []
